@@ -762,6 +762,51 @@ pub fn internal_call_is<A: Wordy>(i: usize, f: &str, args: &A) -> bool {
     let c = h.calls[i];
     c.callee == 0 && c.func == crate::fnv(f) && c.args == Words::of(args)
 }
+/// index of the first logged call to `callee`.`f` (LCAP if there is none) — order-insensitive lookups
+pub fn find_call(callee: &crate::Address, f: &str) -> usize {
+    let h = host();
+    let mut r = LCAP;
+    let mut i = LCAP;
+    while i > 0 {
+        i -= 1;
+        if i < h.n_calls && h.calls[i].callee == callee.0 && h.calls[i].func == crate::fnv(f) {
+            r = i;
+        }
+    }
+    r
+}
+/// was `callee`.`f`(args) called (at any position)?
+pub fn called<A: Wordy>(callee: &crate::Address, f: &str, args: &A) -> bool {
+    let mut r = false;
+    let mut i = 0;
+    while i < LCAP {
+        r = r | call_is(i, callee, f, args);
+        i += 1;
+    }
+    r
+}
+/// was the contract stub `f` invoked with exactly these arguments (at any position)?
+pub fn internal_called<A: Wordy>(f: &str, args: &A) -> bool {
+    let mut r = false;
+    let mut i = 0;
+    while i < LCAP {
+        r = r | internal_call_is(i, f, args);
+        i += 1;
+    }
+    r
+}
+/// return value of the first call to `callee`.`f` (only meaningful if `find_call` found one)
+pub fn ret_of<R: Wordy>(callee: &crate::Address, f: &str) -> R {
+    let i = find_call(callee, f);
+    let h = host();
+    let mut r = Short::zero();
+    let mut k = 0;
+    while k < LCAP {
+        r = Short::select(k == i, h.calls[k].ret, r);
+        k += 1;
+    }
+    R::read(&r.widen())
+}
 pub fn call_ret<R: Wordy>(i: usize) -> R {
     R::read(&host().calls[i].ret.widen())
 }
